@@ -911,13 +911,19 @@ impl Mp4TrackWriter {
         self.update_sample_times(sample.duration);
         self.update_rendering_offsets(sample.rendering_offset);
         self.update_sync_samples(sample.is_sync);
-        if self.is_chunk_full() {
-            self.write_chunk(writer)?;
-        }
+        // The sample is in the tables and in the pending chunk now: finish the bookkeeping
+        // before reporting a failed flush, or the next call finds more pending samples than
+        // sample ids (the chunk stays pending and is flushed by a later call).
+        let flushed = if self.is_chunk_full() {
+            self.write_chunk(writer)
+        } else {
+            Ok(())
+        };
         self.update_durations(sample.duration, movie_timescale);
 
         self.sample_id += 1;
 
+        flushed?;
         Ok(self.trak.tkhd.duration)
     }
 
